@@ -59,13 +59,13 @@ open Map
 /-- What the registry holds: for every image reference its manifest layers in order, each with
 the layer digest and the TOC digest that the blob really has (`none`: no such image). -/
 structure Truth where
-  images : Ref → Option (List (LDigest × Toc))
+  images : Nat → Option (List (Nat × Nat))   -- Ref ↦ [(LDigest, Toc)]
 
 /-- How the registry answers right now; it may answer differently at every operation
 (transient errors).  `layer r d = false` also stands for a layer that is not eStargz. -/
 structure Oracle where
-  manifest : Ref → Bool
-  layer : Ref → LDigest → Bool
+  manifest : Nat → Bool          -- Ref
+  layer : Nat → Nat → Bool       -- Ref, LDigest
 
 def Oracle.healthy : Oracle := ⟨fun _ => true, fun _ _ => true⟩
 
